@@ -3,6 +3,9 @@
 import json, sys
 
 CHECKS = {
+ "C20": ("proptest-driven generation of HTTP requests (bodies, content types, query strings); differential against the framework's own extractor composed with deserr::deserialize, in-process on a current-thread runtime",
+         "Valid, ill-typed, arbitrary and malformed bodies with right and wrong content types through AwebJson and AxumJson, and query strings through AwebQueryParameter, for five targets; all outcome classes (value / deserr failure / framework rejection) must be populated or the run is inconclusive (exit 2).",
+         "Requests are built with actix_web::test::TestRequest and http::Request; sockets, payload size limits and app-level configuration are not exercised. serde_urlencoded never rejects a query string, so the query extractor has no framework-rejection class.", "DESIGN.md §6 C20"),
  "C14": ("proptest-driven generation of failing payloads over plain-key types; containment oracle tying the JsonError / QueryParamError text to the first report of the keep-going run, path read-back",
          "For every generated failing payload the message of both built-in error types must contain the independently rendered path of the first keep-going report, the per-kind facts (value as JSON text, field, key/value with all alternatives, reference did-you-mean suggestion, lengths, detail message) and, for JsonError, the path read back from the message must resolve to the quoted value.",
          "Keys restricted to [A-Za-z0-9_]; facts checked by containment, so rewording does not raise an alarm.", "DESIGN.md §6 C14"),
